@@ -36,7 +36,7 @@ func init() {
 		MinNontrivial:  map[string]int{"quick": 20000, "thorough": 100000},
 		RequiredObs: []string{
 			"CoeffUint64:exact", "CoeffUint64:panic_allowed", "Coeff:exact", "Coeff:panic_allowed", "Coeffs:rows_checked",
-			"Unrank:exact", "Rank:exact", "Rank:panic_allowed", "colex:positions_checked", "Unrank:risky_range_calls", "thresholds:groups", "Rank:boundary_cases_above_MaxInt", "Unrank:longloop_rank_above_2^53", "Unrank:constructed_from_combination",
+			"Unrank:exact", "Rank:exact", "Rank:panic_allowed", "colex:positions_checked", "Unrank:risky_range_calls", "thresholds:groups", "Rank:boundary_cases_above_MaxInt", "Rank:long_dense_sets(40<k<=25000)", "Unrank:longloop_rank_above_2^53", "Unrank:constructed_from_combination",
 		},
 	})
 }
@@ -656,6 +656,53 @@ func run(c *engine.Ctx) {
 			}
 		}
 	})
+
+	// 8c. Rank of LONG, dense sets (hundreds to thousands of elements): the run {a, a+1, ..., b} has rank C(b+1,a)-1,
+	// a sum of b-a+1 terms each of which is small; b around the points where the sum passes MaxInt, 2^64 (where an
+	// unsigned accumulator wraps) and 2^65, also with a few elements knocked out of the run
+	for a := 5; a <= 40; a++ {
+		a := a
+		c.Unit(fmt.Sprintf("rank/long-runs/a=%d", a), func() {
+			rg := engine.NewRng(uint64(31000 + a))
+			two64 := new(big.Int).Lsh(big.NewInt(1), 64)
+			limits := []*big.Int{bigMaxI, two64, new(big.Int).Lsh(big.NewInt(1), 65), new(big.Int).Mul(two64, big.NewInt(5))}
+			seen := map[int]bool{}
+			for _, lim := range limits {
+				// smallest b with C(b+1,a) > lim
+				b := a
+				for bigcomb.Binomial(uint64(b+1), uint64(a)).Cmp(lim) <= 0 {
+					b += 1 + b/64
+				}
+				for bigcomb.Binomial(uint64(b), uint64(a)).Cmp(lim) > 0 {
+					b--
+				}
+				for d := -2; d <= 2; d++ {
+					bb := b + d
+					if bb < a || bb-a+1 > 25000 || seen[bb] {
+						continue
+					}
+					seen[bb] = true
+					for gaps := 0; gaps < 3; gaps++ {
+						drop := map[int]bool{}
+						for len(drop) < gaps {
+							drop[a+rg.Intn(bb-a+1)] = true
+						}
+						var seq []int
+						for v := a; v <= bb; v++ {
+							if !drop[v] {
+								seq = append(seq, v)
+							}
+						}
+						c.Obs("Rank:long_dense_sets(40<k<=25000)", 1)
+						c.ObsMax("Rank:longest_set", len(seq))
+						if !m.rank(seq, false) {
+							return
+						}
+					}
+				}
+			}
+		})
+	}
 
 	// 9. seeded ranks / sequences
 	seededUnrank(c, m)
